@@ -25,4 +25,9 @@ theorem blockID_equals_is_model_equality (a b : VoteSet.BlockID) :
   obtain ⟨h2, t2, p2⟩ := b
   simp only [VoteSet.BlockID.mk.injEq]
   by_cases e1 : h1 = h2 <;> by_cases e2 : t1 = t2 <;> by_cases e3 : p1 = p2 <;> simp [e1, e2, e3]
+/-- `addVerifiedVote`, at the moment a block first reaches +2/3: EVERY vote held for that block is
+    copied into the primary array (the condition is "the slot holds a vote", nothing else) - so the
+    commit made from the array carries the votes of the majority (C15 `commit_verifies`, C02) -/
+theorem voteSet_copies_every_vote_of_the_majority (b : Bool) : Gen.e_voteSet_copy_cond (vote_notNil := b) = b := rfl
+
 end AnnVerif.Ties
